@@ -162,7 +162,7 @@ impl Bundle for JpegBitstreamHeader {
             markers.push(marker_bits);
         }
 
-        let app_markers = (0..num_app_markers)
+        let app_markers: Vec<AppMarker> = (0..num_app_markers)
             .map(|_| AppMarker::parse(bitstream, ()))
             .collect::<Result<_, _>>()?;
         let com_lengths = (0..num_com_markers)
@@ -170,7 +170,7 @@ impl Bundle for JpegBitstreamHeader {
             .collect::<Result<_, _>>()?;
 
         let num_quant_tables = bitstream.read_bits(2)? + 1;
-        let quant_tables = (0..num_quant_tables)
+        let quant_tables: Vec<QuantTable> = (0..num_quant_tables)
             .map(|_| QuantTable::parse(bitstream, ()))
             .collect::<Result<_, _>>()?;
 
@@ -187,7 +187,7 @@ impl Bundle for JpegBitstreamHeader {
             }
             _ => unreachable!(),
         };
-        let components = component_ids
+        let components: Vec<Component> = component_ids
             .into_iter()
             .map(|id| -> Result<_, Self::Error> {
                 let q_idx = bitstream.read_bits(2)? as u8;
@@ -196,11 +196,11 @@ impl Bundle for JpegBitstreamHeader {
             .collect::<Result<_, _>>()?;
 
         let num_huff = bitstream.read_u32(4, 2 + U(3), 10 + U(4), 26 + U(6))?;
-        let huffman_codes = (0..num_huff)
+        let huffman_codes: Vec<HuffmanCode> = (0..num_huff)
             .map(|_| HuffmanCode::parse(bitstream, ()))
             .collect::<Result<_, _>>()?;
 
-        let scan_info = (0..num_scans)
+        let scan_info: Vec<ScanInfo> = (0..num_scans)
             .map(|_| ScanInfo::parse(bitstream, ()))
             .collect::<Result<_, _>>()?;
         let restart_interval = if has_dri { bitstream.read_bits(16)? } else { 0 };
@@ -218,6 +218,51 @@ impl Bundle for JpegBitstreamHeader {
         let padding_bits = has_padding
             .then(|| Padding::parse(bitstream, ()))
             .transpose()?;
+
+        // Reject values the reconstruction cannot work with, instead of failing later.
+        for am in &app_markers {
+            let min_length = match am.ty {
+                1 => 5 + HEADER_ICC.len(),
+                2 => 3 + HEADER_EXIF.len(),
+                3 => 3 + HEADER_XMP.len(),
+                _ => 0,
+            };
+            if (am.length as usize) < min_length {
+                tracing::error!(am.ty, am.length, "APP marker too short");
+                return Err(jxl_bitstream::Error::ValidationFailed(
+                    "APP marker too short",
+                ));
+            }
+        }
+        let num_dqt = markers.iter().filter(|&&m| m == 0xdb).count();
+        let num_dht = markers.iter().filter(|&&m| m == 0xc4).count();
+        if quant_tables.iter().filter(|qt| qt.is_last).count() < num_dqt {
+            return Err(jxl_bitstream::Error::ValidationFailed(
+                "not enough quant tables for DQT markers",
+            ));
+        }
+        if huffman_codes.iter().filter(|hc| hc.is_last).count() < num_dht {
+            return Err(jxl_bitstream::Error::ValidationFailed(
+                "not enough Huffman codes for DHT markers",
+            ));
+        }
+        let num_channels = components.len().min(3);
+        for si in &scan_info {
+            if si.ss > si.se {
+                return Err(jxl_bitstream::Error::ValidationFailed(
+                    "invalid spectral selection",
+                ));
+            }
+            if si
+                .component_info
+                .iter()
+                .any(|c| c.comp_idx as usize >= num_channels)
+            {
+                return Err(jxl_bitstream::Error::ValidationFailed(
+                    "invalid component index in scan",
+                ));
+            }
+        }
 
         Ok(Self {
             is_gray,
